@@ -403,7 +403,7 @@ impl Engine for C14 {
     fn budget(&self, tier: Tier) -> (u64, u64) {
         match tier {
             Tier::Quick => (640, 70),
-            Tier::Thorough => (4_000, 1500),
+            Tier::Thorough => (1_200, 1500),
         }
     }
     fn generate(&self, seed: u64, _index: u64, tier: Tier) -> Sc {
@@ -608,6 +608,7 @@ impl Engine for C14 {
             st.state(&[&pos, if sc.prior.is_some() { "older-file" } else { "no-file" }]);
         }
         st.add("sim.reference_processes", reference.evaluated);
+        st.add("sim.processes", reference.evaluated);
         st.add("sim.days", sc.later_day_offset.max(0) as u64);
         ExecOut { violations, digest, nontrivial: false }
     }
